@@ -67,6 +67,25 @@ Proof.
   rewrite <- (Rmult_1_r (fuzz * r)) at 2. apply Rmult_le_compat_l; lra.
 Qed.
 
+(* every population of a sequence with changing radii stays inside ITS OWN contour *)
+Lemma radius_each_population : forall (ginv : R -> R) (umax u fuzz : R) (rs : list R) (k : nat) (g : list R),
+  0 <= sampler_radius rs k -> 0 <= fuzz -> 0 <= umax -> 0 <= u <= 1 ->
+  (forall x y, x <= y -> ginv x <= ginv y) ->
+  ginv umax = (sampler_radius rs k * fuzz) * (sampler_radius rs k * fuzz) / 2 ->
+  norm g <> 0 ->
+  norm (radial_point (tg_radius ginv umax u) g) <= sampler_radius rs k * fuzz.
+Proof.
+  intros ginv umax u fuzz rs k g Hr Hf Hum Hu Hm Hinv Hg.
+  apply (tg_radius_bounded ginv umax u (sampler_radius rs k * fuzz) g); auto. apply Rmult_le_pos; assumption.
+Qed.
+(* a sampler kept from the first population can hand out a latent point outside the current contour *)
+Lemma stale_sampler_refuted : exists (rs : list R) (k : nat) (z : list R),
+  norm z <= stale_sampler_radius rs k * 1 /\ ~ (norm z <= sampler_radius rs k * 1).
+Proof.
+  exists [2; 1], 1%nat, [2]. unfold stale_sampler_radius, sampler_radius, norm, sumsq. simpl.
+  replace (2 * 2 + 0) with (2 * 2) by ring. rewrite sqrt_square by lra. split; lra.
+Qed.
+
 (* ---- rejection identity ----------------------------------------------------------------------------------------- *)
 Local Open Scope Q_scope.
 Lemma acc_mass_eq : forall wmax x, ~ fst x == 0 -> ~ wmax == 0 -> acc_mass wmax x == snd x / wmax.
